@@ -54,17 +54,17 @@ func init() {
 	reg("C05", propCfg{NeedCLI: true, Quick: tierCfg{Checks: 4000, Timeout: 8 * m}, Thor: tierCfg{Checks: 200000, Timeout: 90 * m}})
 	reg("C06", propCfg{Quick: tierCfg{Checks: 25000, Timeout: 8 * m}, Thor: tierCfg{Checks: 2000000, Timeout: 90 * m}})
 	reg("C07", propCfg{Quick: tierCfg{Checks: 15000, Timeout: 8 * m}, Thor: tierCfg{Checks: 1000000, Timeout: 90 * m}})
-	reg("C08", propCfg{Quick: tierCfg{Checks: 12000, Timeout: 8 * m}, Thor: tierCfg{Checks: 800000, Timeout: 90 * m}})
+	reg("C08", propCfg{Quick: tierCfg{Checks: 16000, Timeout: 8 * m}, Thor: tierCfg{Checks: 800000, Timeout: 90 * m}})
 	reg("C09", propCfg{Quick: tierCfg{Checks: 30000, Timeout: 8 * m}, Thor: tierCfg{Checks: 2000000, Timeout: 90 * m}})
 	reg("C10", propCfg{Quick: tierCfg{Checks: 200000, Timeout: 8 * m}, Thor: tierCfg{Checks: 30000000, Timeout: 90 * m}})
-	reg("C11", propCfg{Quick: tierCfg{Checks: 8000, Timeout: 8 * m}, Thor: tierCfg{Checks: 600000, Timeout: 90 * m}})
+	reg("C11", propCfg{Quick: tierCfg{Checks: 12000, Timeout: 8 * m}, Thor: tierCfg{Checks: 600000, Timeout: 90 * m}})
 	reg("C12", propCfg{Quick: tierCfg{Checks: 30000, Timeout: 8 * m}, Thor: tierCfg{Checks: 2000000, Timeout: 90 * m}})
-	reg("C13", propCfg{Quick: tierCfg{Checks: 12000, Timeout: 8 * m}, Thor: tierCfg{Checks: 300000, Timeout: 90 * m}})
+	reg("C13", propCfg{Quick: tierCfg{Checks: 20000, Timeout: 8 * m}, Thor: tierCfg{Checks: 300000, Timeout: 90 * m}})
 	reg("C14", propCfg{Quick: tierCfg{Checks: 100000, Timeout: 8 * m}, Thor: tierCfg{Checks: 20000000, Timeout: 90 * m}})
 	reg("C15", propCfg{Quick: tierCfg{Checks: 100000, Timeout: 8 * m}, Thor: tierCfg{Checks: 50000000, Timeout: 90 * m}})
 	reg("C16", propCfg{Quick: tierCfg{Checks: 100000, Timeout: 8 * m}, Thor: tierCfg{Checks: 10000000, Timeout: 90 * m}})
-	reg("C17", propCfg{Quick: tierCfg{Checks: 12000, Timeout: 8 * m}, Thor: tierCfg{Checks: 1000000, Timeout: 90 * m}})
-	reg("C18", propCfg{Quick: tierCfg{Checks: 12000, Timeout: 8 * m}, Thor: tierCfg{Checks: 1000000, Timeout: 90 * m}})
+	reg("C17", propCfg{Quick: tierCfg{Checks: 20000, Timeout: 8 * m}, Thor: tierCfg{Checks: 1000000, Timeout: 90 * m}})
+	reg("C18", propCfg{Quick: tierCfg{Checks: 20000, Timeout: 8 * m}, Thor: tierCfg{Checks: 1000000, Timeout: 90 * m}})
 	reg("C19", propCfg{Race: true, Quick: tierCfg{Checks: 160, Shards: 4, Timeout: 8 * m}, Thor: tierCfg{Checks: 6000, Shards: 4, Timeout: 90 * m}})
 	reg("C20", propCfg{Quick: tierCfg{Checks: 400000, Timeout: 8 * m}, Thor: tierCfg{Checks: 40000000, Timeout: 90 * m}})
 }
